@@ -30,10 +30,12 @@ type cacheCopy struct {
 	data   map[fat2.PTicker][]uint64
 	avgs   map[fat2.PTicker]uint64
 	height uint32
+	// full is the whole in-memory state of the node (generic deep copy): whatever else a changed tree keeps in memory
+	full drive.NodeState
 }
 
 func takeCache(d *drive.Daemon) cacheCopy {
-	c := cacheCopy{height: d.Node.LastAveragesHeight}
+	c := cacheCopy{height: d.Node.LastAveragesHeight, full: d.Snapshot()}
 	if d.Node.LastAveragesData != nil {
 		c.data = map[fat2.PTicker][]uint64{}
 		for k, v := range d.Node.LastAveragesData {
@@ -50,6 +52,7 @@ func takeCache(d *drive.Daemon) cacheCopy {
 }
 
 func (c cacheCopy) restore(d *drive.Daemon) {
+	d.Restore(c.full)
 	d.Node.LastAveragesHeight = c.height
 	d.Node.LastAveragesData = nil
 	d.Node.LastAverages = nil
@@ -80,7 +83,11 @@ func (c cacheCopy) String() string {
 			ap = append(ap, fmt.Sprintf("%s:%d", t.String(), v))
 		}
 	}
-	return fmt.Sprintf("h=%d data={%s} avg={%s}", c.height, strings.Join(parts, " "), strings.Join(ap, " "))
+	extra := ""
+	if !c.full.IsZero() {
+		extra = fmt.Sprintf(" state=%x", sha256d([]byte(c.full.Fingerprint()))[:6])
+	}
+	return fmt.Sprintf("h=%d data={%s} avg={%s}%s", c.height, strings.Join(parts, " "), strings.Join(ap, " "), extra)
 }
 
 // refRun is the uninterrupted run of a coverage chain with per-height checkpoints.
